@@ -183,6 +183,8 @@ def run_scenario(sc):
         obs['ledger'] = dict(S.ledger)
         obs['main_points'] = S.threads[0].points
         obs['points'] = {t.role: t.points for t in S.threads[:40]}
+        # life of every worker instance in scheduling steps (start .. the step at which it finished or was killed; None: still alive)
+        obs['lifetimes'] = [(t.role, getattr(t, 'start_step', None), getattr(t, 'end_step', None)) for t in S.threads if str(t.role).startswith('Worker-')][:200]
         if sc.get('keep_trace'):
             obs['trace'] = [tuple(_j(x) for x in ev) for ev in S.trace]
         leaked = S.shutdown()
